@@ -160,7 +160,7 @@ def replay_case(case, env, extra_judge=None):
     spec.setdefault("cats", [])
     if r1.unsupported:
         exp = None
-    out = {"violations": [], "counters": {}}
+    out = {"violations": [], "counters": {}, "evals": 0, "nontrivial": 0, "states": 0, "transitions": 0, "samples": [], "sets": {}}
     opts = case.get("opts", {})
     r = X.execute(prog, tuple(case.get("prefix", ())), conv=case.get("conv", "call"), **opts)
     r2v = None
